@@ -36,18 +36,19 @@ type event struct {
 }
 
 type simCase struct {
-	Name      string   `json:"name"`
-	N         int      `json:"n"`
-	Workers   int      `json:"workers"`
-	DelayMs   int      `json:"delay_ms"`
-	TimeoutMs int      `json:"timeout_ms"`
-	CancelMs  int      `json:"cancel_ms"` // -1: never
-	Require   bool     `json:"require"`   // RequireECH without any config list: targets are refused before dialling
-	Script    []string `json:"script"`    // per target: ok:<ms> | fail:<ms> | hang
-	Trace     []string `json:"trace"`     // observable events, in order
-	Monitor   string   `json:"monitor"`   // "" or the first violated monitor
-	Leak      bool     `json:"leak"`
-	Timed     []string `json:"timed"` // the same events with their virtual time in ms
+	Name       string   `json:"name"`
+	N          int      `json:"n"`
+	Workers    int      `json:"workers"`
+	DelayMs    int      `json:"delay_ms"`
+	TimeoutMs  int      `json:"timeout_ms"`
+	CancelMs   int      `json:"cancel_ms"`   // -1: never
+	DeadlineMs int      `json:"deadline_ms"` // the caller's own context deadline; 0: none
+	Require    bool     `json:"require"`     // RequireECH without any config list: targets are refused before dialling
+	Script     []string `json:"script"`      // per target: ok:<ms> | fail:<ms> | hang
+	Trace      []string `json:"trace"`       // observable events, in order
+	Monitor    string   `json:"monitor"`     // "" or the first violated monitor
+	Leak       bool     `json:"leak"`
+	Timed      []string `json:"timed"` // the same events with their virtual time in ms
 }
 
 func runCase(t *testing.T, c *simCase) {
@@ -147,6 +148,11 @@ func runCase(t *testing.T, c *simCase) {
 		}
 		ctx, cancel := context.WithCancel(context.Background())
 		defer cancel()
+		if c.DeadlineMs > 0 {
+			var cancelDL context.CancelFunc
+			ctx, cancelDL = context.WithTimeout(ctx, time.Duration(c.DeadlineMs)*time.Millisecond)
+			defer cancelDL()
+		}
 		if c.CancelMs >= 0 {
 			go func() {
 				time.Sleep(time.Duration(c.CancelMs) * time.Millisecond)
@@ -482,6 +488,15 @@ func TestTraces(t *testing.T) {
 		}
 		return false
 	}, 2, nil)
+	// a caller whose own deadline is far away: each attempt is still bounded by the Dialer's Timeout
+	family("deadline", []string{"hang", "ok:0", "fail:50", "ok:2000", "rej:700"}, 3, func(cur []string) bool {
+		for _, s := range cur {
+			if s == "hang" || s == "ok:2000" {
+				return true
+			}
+		}
+		return false
+	}, 3, func(c *simCase) { c.DeadlineMs = 3600000 })
 	reps := 2
 	if thorough {
 		reps = 5
